@@ -111,6 +111,10 @@ def signalPower (a : Nat → K) (n : Nat) : K := sumTo n (fun i => a i * a i) / 
 def noiseVariance (a : Nat → K) (n : Nat) (snrLin : Nat → K) (i : Nat) : K :=
   signalPower a n / snrLin i
 
+/-- what the driver evaluates (the signal power once, then one division per sample) -/
+theorem noiseVariance_eq (a : Nat → K) (n : Nat) (snrLin : Nat → K) (i : Nat) :
+    noiseVariance a n snrLin i = signalPower a n / snrLin i := rfl
+
 /-- `a + noise` -/
 def noiseAdd (a draw : Nat → K) : Nat → K := fun i => a i + draw i
 
